@@ -57,10 +57,10 @@ const QUERIES: [&str; 6] = [
     r#"{ N { value @tag(name: "t") @output next @recurse(depth: 2) { w: value @output @filter(op: ">=", value: ["%t"]) } divs @fold @transform(op: "count") @output(name: "nd") @filter(op: ">", value: ["$z"]) { dn: name @output @filter(op: "!=", value: ["$s"]) } } }"#,
     // regex / not_regex with a *tag* operand (the pattern changes from row to row), inside a fold
     // and under an optional edge
-    r#"{ N(max: 5) { name @tag(name: "nm") @output divs @fold { dn: name @output @filter(op: "regex", value: ["%nm"]) } next @optional { nx: name @output @filter(op: "not_regex", value: ["%nm"]) } } }"#,
+    r#"{ N(max: 4) { name @tag(name: "nm") @output divs @fold { dn: name @output @filter(op: "regex", value: ["%nm"]) } next @optional { nx: name @output @filter(op: "not_regex", value: ["%nm"]) } } }"#,
     // regex with a variable, list operators with variables, ordering and string operators with
     // tags, a fold-count tag used by a later filter, recursion
-    r#"{ N(max: 5) { name @filter(op: "regex", value: ["$re"]) @tag(name: "nm") value @output @tag(name: "v") @filter(op: "one_of", value: ["$set"]) divs @fold @transform(op: "count") @tag(name: "c") { dv: value @output @filter(op: "<=", value: ["%v"]) name @filter(op: "not_one_of", value: ["$names"]) } next @recurse(depth: 3) { rv: value @output @filter(op: ">", value: ["%c"]) rn: name @output @filter(op: "has_suffix", value: ["$suf"]) @filter(op: "not_has_prefix", value: ["%nm"]) } } }"#,
+    r#"{ N(max: 4) { name @filter(op: "regex", value: ["$re"]) @tag(name: "nm") value @output @tag(name: "v") @filter(op: "one_of", value: ["$set"]) divs @fold @transform(op: "count") @tag(name: "c") { dv: value @output @filter(op: "<=", value: ["%v"]) name @filter(op: "not_one_of", value: ["$names"]) } next @recurse(depth: 3) { rv: value @output @filter(op: ">", value: ["%c"]) rn: name @output @filter(op: "has_suffix", value: ["$suf"]) @filter(op: "not_has_prefix", value: ["%nm"]) } } }"#,
     // type coercion through an interface-typed edge, null checks, = / != with a tag and a variable
     r#"{ N { value @tag(name: "v") same { ... on N { sv: value @output @filter(op: "=", value: ["%v"]) name @filter(op: "is_not_null") @output(name: "sn") __typename @filter(op: "!=", value: ["$tn"]) } } } }"#,
 ];
@@ -217,11 +217,71 @@ fn compile_and_run_cold(qi: usize, which_schema: usize, log: &Arc<Mutex<Vec<u8>>
     format!("{vars}|{}", execute(q, qi, log, tag))
 }
 
+/// Hot variant: the main thread parses the schema and compiles every query once; then 3 or 4
+/// threads, released together, each execute all shared compiled queries once, in the same
+/// rotation (so that the same compiled query - and the same filter code with different tag /
+/// argument values - is running on several threads at once for most of the interpreted time),
+/// odd threads with the second argument set. Oracle: every execution equals the sequential
+/// execution with the same arguments.
+fn hot(variant: usize, log: &Arc<Mutex<Vec<u8>>>) -> i32 {
+    let schema = Arc::new(Schema::parse(SCHEMA).unwrap());
+    let order: Vec<usize> = (0..QUERIES.len()).map(|k| (variant + k) % QUERIES.len()).collect();
+    let shared: Vec<(usize, Arc<IndexedQuery>)> =
+        order.iter().map(|qi| (*qi, parse(&schema, QUERIES[*qi]).unwrap())).collect();
+    let n_threads = 3 + variant % 2;
+    let barrier = Arc::new(Barrier::new(n_threads));
+    let mut hs = vec![];
+    for t in 0..n_threads {
+        let b = barrier.clone();
+        let log = log.clone();
+        let shared = shared.clone();
+        hs.push(std::thread::spawn(move || {
+            b.wait();
+            let mut out = vec![];
+            let alt = t % 2;
+            for (qi, q) in &shared {
+                out.push((*qi, alt, execute_alt(q.clone(), *qi, alt, &log, b'0' + t as u8)));
+            }
+            out
+        }));
+    }
+    let results: Vec<Vec<(usize, usize, String)>> = hs.into_iter().map(|h| h.join().unwrap()).collect();
+    let seq_log = Arc::new(Mutex::new(Vec::<u8>::new()));
+    let mut expected: BTreeMap<(usize, usize), String> = BTreeMap::new();
+    for alt in 0..2 {
+        for (qi, q) in &shared {
+            expected.insert((*qi, alt), execute_alt(q.clone(), *qi, alt, &seq_log, b'.'));
+        }
+    }
+    let mut ok = true;
+    for (t, rs) in results.iter().enumerate() {
+        for (qi, alt, r) in rs {
+            if &expected[&(*qi, *alt)] != r {
+                println!("MISMATCH hot thread {t} query {qi} args {alt}: concurrent {r} sequential {}", expected[&(*qi, *alt)]);
+                ok = false;
+            }
+        }
+    }
+    let l = log.lock().unwrap();
+    println!("INTERLEAVING variant={variant} {}", String::from_utf8_lossy(&l));
+    if !ok {
+        println!("RESULT violation");
+        return 3;
+    }
+    println!("RESULT ok");
+    0
+}
+
 fn main() {
     let argv: Vec<String> = std::env::args().collect();
     let variant: usize = argv.get(1).and_then(|s| s.parse().ok()).unwrap_or(0);
     let n_threads = 2 + variant % 2; // 2 or 3
     let log = Arc::new(Mutex::new(Vec::<u8>::new()));
+    if variant >= 2 {
+        // "hot" variants: no cold-start round; all the interpreted time goes into several threads
+        // executing the same shared compiled queries at the same time (see hot()).
+        std::process::exit(hot(variant, &log));
+    }
 
     // Round 1: cold statics raced on first touch.
     let barrier = Arc::new(Barrier::new(n_threads));
@@ -240,15 +300,9 @@ fn main() {
     }
     let round1: Vec<(usize, usize, String)> = hs.into_iter().map(|h| h.join().unwrap()).collect();
 
-    // Round 2: one shared Arc<Schema> and one shared Arc<IndexedQuery> per query, none executed
-    // yet. After the barrier every thread executes all of them in the same order (so the same
-    // compiled query is running on several threads at once, cold), thread 1 with different
-    // argument values than threads 0 and 2; then each compiles a query of its own over the shared
-    // schema and runs it.
+    // Round 2: one shared Arc<Schema>; after the barrier every thread compiles a query of its own
+    // over it and runs it (shared compiled queries are the hot variants' business).
     let schema = Arc::new(Schema::parse(SCHEMA).unwrap());
-    let order: Vec<usize> = (0..QUERIES.len()).map(|k| (variant + k) % QUERIES.len()).collect();
-    let shared: Vec<(usize, Arc<IndexedQuery>)> =
-        order.iter().map(|qi| (*qi, parse(&schema, QUERIES[*qi]).unwrap())).collect();
     let n_threads = 3;
     let barrier = Arc::new(Barrier::new(n_threads));
     let mut hs = vec![];
@@ -256,25 +310,16 @@ fn main() {
         let b = barrier.clone();
         let log = log.clone();
         let schema = schema.clone();
-        let shared = shared.clone();
         hs.push(std::thread::spawn(move || {
             b.wait();
             let alt = t % 2;
-            let mut r_shared = String::new();
-            for (qi, q) in &shared {
-                r_shared.push_str(&execute_alt(q.clone(), *qi, alt, &log, b'0' + t as u8));
-                r_shared.push('|');
-            }
-            log.lock().unwrap().push(b'0' + t as u8);
-            // compile a different query over the shared schema
             let qi = (t + 1 + variant) % QUERIES.len();
             let own = parse(schema.as_ref(), QUERIES[qi]).unwrap();
             log.lock().unwrap().push(b'0' + t as u8);
             let r_own = execute_alt(own.clone(), qi, alt, &log, b'0' + t as u8);
             let same_ir = format!("{:?}", own.ir_query);
-            drop(shared);
             drop(schema);
-            (qi, alt, r_shared, r_own, same_ir)
+            (qi, alt, r_own, same_ir)
         }));
     }
     let round2: Vec<_> = hs.into_iter().map(|h| h.join().unwrap()).collect();
@@ -288,29 +333,11 @@ fn main() {
             ok = false;
         }
     }
-    let mut seq_shared = [String::new(), String::new()];
-    for alt in 0..2 {
-        for (qi, q) in &shared {
-            seq_shared[alt].push_str(&execute_alt(q.clone(), *qi, alt, &seq_log, b'.'));
-            seq_shared[alt].push('|');
-        }
-    }
-    for (qi, alt, r_shared, r_own, ir) in &round2 {
+    for (qi, alt, r_own, ir) in &round2 {
         let own = parse(schema.as_ref(), QUERIES[*qi]).unwrap();
-        if r_shared != &seq_shared[*alt] {
-            println!("MISMATCH round2 shared queries (args set {alt}): concurrent {r_shared} sequential {}", seq_shared[*alt]);
-            ok = false;
-        }
         if &execute_alt(own.clone(), *qi, *alt, &seq_log, b'.') != r_own || &format!("{:?}", own.ir_query) != ir {
             println!("MISMATCH round2 own query {qi}");
             ok = false;
-        }
-    }
-    if argv.get(2).map(|s| s.as_str()) == Some("dump") {
-        for alt in 0..2 {
-            for part in seq_shared[alt].split('|') {
-                println!("DUMP args{alt}: {part}");
-            }
         }
     }
     let l = log.lock().unwrap();
